@@ -135,7 +135,7 @@ def cases(tier, seed):
     # element-count mismatch, invalid permutations, size mismatches in argument lists
     for op in ('reshape', 'reshape_ttm_rows', 'reshape_ttm_cols', 'qtt_to_tens_sizes', 'qtt_to_tens_prefix_short', 'qtt_to_tens_prefix_short_rank1', 'qtt_to_tens_prefix_one_mode_rank1', 'qtt_to_tens_long', 'reshape_prefix_short', 'reshape_prefix_short_rank1', 'reshape_prefix_long', 'reshape_ttm_split', 'reshape_ttm_split_rank1', 'reshape_ttm_split_lead11', 'to_qtt_size3', 'to_qtt_size6', 'to_qtt_ttm_nonsquare', 'to_qtt_ttm_size3', 'permute_dup', 'permute_short', 'permute_long',
                'mprod_size', 'mprod_lists', 'mprod_repeated_mode', 'cat_mode_mismatch_before', 'cat_mode_mismatch_after', 'cat_mode_mismatch_both', 'cat_order', 'pad_too_many', 'dot_axis_size', 'dot_axis_count', 'dot_b_longer', 'dot_axis_duplicate', 'dot_axis_duplicate_rank1',
-               'ctor_shape_numel', 'ctor_ttm_shape_numel', 'random_bad_R', 'set_core_rank', 'set_core_dims', 'mask_dense'):
+               'ctor_shape_numel', 'ctor_shape_numel_divisor', 'ctor_shape_numel_divisor_numpy', 'ctor_shape_drops_a_mode', 'ctor_shape_numel_multiple', 'ctor_ttm_shape_numel', 'random_bad_R', 'set_core_rank', 'set_core_dims', 'mask_dense'):
         for rep in range(k):
             d = rng.choice((2, 3))
             N = [rng.choice((2, 3)) for _ in range(d)]
@@ -362,6 +362,11 @@ def build(case, g):
             'dot_axis_duplicate': (ANY, lambda: tt.dot(x, mk([N[p], N[p]], g), [p, p])),
             'dot_axis_duplicate_rank1': (ANY, lambda: tt.dot(x, mk([N[p], N[p]], g, R=[1, 1, 1]), [p, p])),
             'ctor_shape_numel': (ANY, lambda: tt.TT(torch.ones(N, dtype=torch.float64), shape=Nb)),
+            # requested shapes whose element count DIVIDES (or is a multiple of) the array's: a reshape with -1 somewhere inside would absorb the factor silently
+            'ctor_shape_numel_divisor': (ANY, lambda: tt.TT(torch.arange(float(dn.prod(N) * 2), dtype=torch.float64).reshape(N + [2]) + 1.0, shape=list(N))),
+            'ctor_shape_numel_divisor_numpy': (ANY, lambda: tt.TT((torch.arange(float(dn.prod(N) * 3), dtype=torch.float64).reshape([3] + N) + 1.0).numpy(), shape=list(N))),
+            'ctor_shape_drops_a_mode': (ANY, lambda: tt.TT(torch.arange(float(dn.prod(N) * 2), dtype=torch.float64).reshape(N + [2]) + 1.0, shape=list(N[:-1]) + [2])),
+            'ctor_shape_numel_multiple': (ANY, lambda: tt.TT(torch.arange(float(dn.prod(N)), dtype=torch.float64).reshape(N) + 1.0, shape=list(N) + [2])),
             'ctor_ttm_shape_numel': (ANY, lambda: tt.TT(torch.ones(N + N, dtype=torch.float64), shape=[(a, b) for a, b in zip(Nb, N)])),
             'random_bad_R': (DOC, lambda: tt.random(N, [1] * d)),
             'set_core_rank': (DOC, lambda: x.set_core(p, torch.ones((x.R[p] + 1, N[p], x.R[p + 1]), dtype=torch.float64))),
